@@ -2993,10 +2993,11 @@ CALSCALE:GREGORIAN\n";
 		if (UNLIKELY(i.t == NULL)) {
 			break;
 		}
-		/* use specifics in T to declare defaults */
-		if (i.t->max_simul) {
-			fdprintf("X-ECHS-MAX-SIMUL:%d\n", i.t->max_simul);
-		}
+		/* use specifics in T to declare defaults, but only those
+		 * that hold for every task of the calendar: the owner.
+		 * T's X-ECHS-MAX-SIMUL is written with T itself, as a
+		 * calendar-level line it would become the limit of every
+		 * other task that has none of its own */
 		with (nummapstr_t o = i.t->owner) {
 			const char *p;
 			uintptr_t n;
